@@ -103,7 +103,7 @@ func VerifC02() {
 	now := time.Now().UnixMilli()
 	nTxs := 1 + verifChoose("mempoolTxs", verifParam("maxTxs", 2, c02MaxTxs))
 	rules := hDefaultRules()
-	if verifChoose("tightBlock", 2) == 1 {
+	if nTxs > 1 && verifChoose("tightBlock", 2) == 1 {
 		// a block limit that only fits one transaction's bandwidth: the second one must be left out consistently
 		rules.maxBlock[fees.Bandwidth] = 60
 	}
@@ -116,7 +116,7 @@ func VerifC02() {
 	parentView.m[string(HeightKey(meta.HeightPrefix()))] = binary.BigEndian.AppendUint64(nil, 0)
 	parentView.m[string(TimestampKey(meta.TimestampPrefix()))] = binary.BigEndian.AppendUint64(nil, 0)
 	parentView.m[string(FeeKey(meta.FeePrefix()))] = fm0.Bytes()
-	if verifChoose("parentHasKey", verifParam("parentKeyVariants", 1, 2)) == 0 {
+	if verifChoose("parentHasKey", verifParam("parentKeyVariants", 2, 2)) == 0 {
 		parentView.m[string(c01DataKey)] = []byte{7}
 	}
 	addrs := [3]codec.Address{{1}, {2}, {3}}
@@ -127,7 +127,7 @@ func VerifC02() {
 	var reads [c02MaxTxs][c01MaxOps]int
 	for i := 0; i < nTxs; i++ {
 		// kind: 0 reads the key, 1 inserts, 2 removes, 3 inserts then fails, 4 expired, 5 sponsor cannot pay
-		kind := verifChoose("txKind", 6)
+		kind := verifChoose("txKind", verifParam("txKinds", 5, 6))
 		sp := 0
 		if i > 0 {
 			sp = verifChoose("sponsor", 2) // same sponsor as tx 0 (conflict on the balance key) or another one
